@@ -73,3 +73,7 @@ Definition emits_values {S O} (r : option (S * list (blk O))) (want : list O) : 
 Definition emits_contiguous {S O} (r : option (S * list (blk O))) (h : hdr) (s : Z) : Prop :=
   exists st outs, r = Some (st, outs) /\ contiguous h s outs /\
     (outs <> [] -> concat_list outs = Some (mk h s (concat (map dat outs)))).
+
+(* added for the widened statements (chunkings that contain zero-length chunks) *)
+Definition is_empty {A} (d : list A) : bool := match d with [] => true | _ => false end.
+Definition drop_empty {A} (ds : list (list A)) : list (list A) := filter (fun d => negb (is_empty d)) ds.
